@@ -87,6 +87,10 @@ def cases(chk, env):
         n += 1
     for k in range(12 if tier == "quick" else 120):
         out.append(S.two_run_spec(rng, label="tworun"))
+    # many LINES (more than the 100 000 slots of the output channels), on either stream: the relay must not block the step
+    for j, stream in enumerate(("out", "err")):
+        w = S.step("w", **{stream: 150000}); w[stream + "lines"] = True
+        out.append(S.mkspec([w, S.step("after", deps=[("step", "w")])], pool=2, jitter=j + 1, label="manylines"))
     if tier == "thorough":
         # output volumes on either stream, 10 jitter seeds
         for vol in (1000, 70000, 200000):
